@@ -240,7 +240,8 @@ func defects() []*defect {
 			chain(r, func(b *s3c.Built) { b.Target = alterParam(b.Target) })
 		}},
 		{name: "payload-altered", kind: kHeader, quick: true, applies: func(e *catalog.Entry, c class, _ *s3c.Req) bool {
-			return c.stream == "" && hasBodyMethod(e.Method)
+			// (a request that announces no body has no payload the server would read: nothing to alter)
+			return c.stream == "" && !c.noLen && hasBodyMethod(e.Method)
 		}, apply: func(r *s3c.Req, k *kit) {
 			// one blank appended: XML / JSON documents stay valid, object data differs
 			chain(r, func(b *s3c.Built) { b.Body = append(append([]byte{}, b.Body...), ' ') })
